@@ -352,6 +352,16 @@ class Sym:
 
     __index__ = __int__
 
+    # math.floor / math.ceil / math.trunc / round of a symbolic real: an integer decided per path
+    def __floor__(self):
+        return int(floor(self))
+
+    def __ceil__(self):
+        return -int(floor(-self))
+
+    def __trunc__(self):
+        return int(self)
+
     def __float__(self):
         if self.op == "c":
             return float(self.args[0])
